@@ -72,17 +72,60 @@ def model_eval(model, tag, cases):
     return [vlib.dec_line(x) for x in mo]
 
 
-def report_x1(run, stream, diffs, how):
-    for c, m, i in sorted(diffs, key=lambda d: sum(len(x) if isinstance(x, bytes) else 1 for x in d[0]))[:2]:
+def report_x1(run, stream, diffs, how, spec=None):
+    """spec(case, impl_out) -> None (no verdict) | text: the implementation's answer contradicts the specification itself.
+    The search step: among the disagreeing inputs (smallest first) look for ones on which the implementation breaks the
+    specification; report those as failing inputs, otherwise report the broken correspondence without a failing input."""
+    ranked = sorted(diffs, key=lambda d: sum(len(x) if isinstance(x, bytes) else 1 for x in d[0]))
+    failing = []
+    if spec:
+        for c, m, i in ranked[:300]:
+            v = spec(c, i)
+            if v:
+                failing.append((c, m, i, v))
+                if len(failing) >= 2:
+                    break
+    for c, m, i, v in failing:
+        key = "x1:%s:%s" % (stream, hashlib.sha1(vlib.enc_case(c).encode()).hexdigest()[:12])
+        run.violation(key, "%s: %s" % (stream, v),
+                      {"case": vlib.show(list(c)), "model": vlib.show(m), "impl": vlib.show(i), "specification": v,
+                       "case_line": vlib.enc_case(c), "how": how})
+    if failing:
+        return
+    for c, m, i in ranked[:2]:
         key = "x1:%s:%s" % (stream, hashlib.sha1(vlib.enc_case(c).encode()).hexdigest()[:12])
         run.violation(key, "model and implementation disagree on %s: model %s, implementation %s" % (stream, vlib.show(m)[:8], vlib.show(i)[:8]),
                       {"broken": "correspondence " + stream, "case": vlib.show(list(c)), "model": vlib.show(m), "impl": vlib.show(i),
-                       "case_line": vlib.enc_case(c), "how": how})
+                       "case_line": vlib.enc_case(c), "how": how}, found_input=False)
 
 
 # ------------------------------------------------------------------ X1
 def x1(run, model, vh, quick):
     rng = run.rng
+
+    def spec_collect(c, i):
+        w = model_eval(model, "shwords", [c])[0]
+        if w[0] != b"1":
+            return None
+        want = [x for x in w[1:] if x]
+        if i[:1] == [b"1"] and i[1:] == want:
+            return None
+        return "the shell reads the command %r as %r, collectArgs gives %r" % (c[0], vlib.show(want), vlib.show(i[1:]))
+
+    def spec_parse(c, i):
+        g = model_eval(model, "gcc", [c])[0]
+        if g[0] != b"1":        # GCC rejects the line or some word is not inert: the theorem says nothing
+            return None
+        # g: ok, lenc incs, lenc sys, lenc defs (raw list), lenc undefs, std   /   i: 1, lenc incs, lenc sys, defines, lenc undefs, std
+        def take(f, k):
+            n = int(f[k])
+            return f[k + 1:k + 1 + n], k + 1 + n
+        gi, k = take(g, 1); gs, k = take(g, k); gd, k = take(g, k); gu, k = take(g, k); gstd = g[k]
+        ii, k = take(i, 1); is_, k = take(i, k); idef = i[k]; iu, k = take(i, k + 1); istd = i[k]
+        if (gi, gs, gu, gstd) != (ii, is_, iu, istd):
+            return "GCC reads -I %r -isystem %r -U %r -std %r from %r; parseArgs gives %r %r %r %r" % tuple(
+                vlib.show(x) for x in (gi, gs, gu, gstd, c, ii, is_, iu, istd))
+        return None
     # collectArgs
     n = 6000 if quick else 300000
     cases = [[c] for c in dict.fromkeys(CORPUS_CMD + [G.gen_command(rng) for _ in range(n)])]
@@ -92,7 +135,7 @@ def x1(run, model, vh, quick):
         return ("ok" if m and m[0] == b"1" else "quote-error") + (",dq" if b'"' in s else "") + (",sq" if b"'" in s else "") + (",bs" if b"\\" in s else "")
     diffs = vlib.correspond(run, "collectArgs", model, [vh, "collect"], cases, tag="collect",
                             nontrivial=lambda c, m, i: c[0] if any(x in c[0] for x in b"\"'\\") else None, bucket=b_collect)
-    report_x1(run, "collectArgs", diffs, "echo <case_line> | build/harness/vh_c32 collect")
+    report_x1(run, "collectArgs", diffs, "echo <case_line> | build/harness/vh_c32 collect", spec_collect)
 
     # parseArgs: the model decides which vectors make the code read args[size] (undefined); those are counted, not run
     n = 6000 if quick else 300000
@@ -108,7 +151,7 @@ def x1(run, model, vh, quick):
         return "gcc-rejects" if g[0] == b"N" else ("hyp-ok" if g[0] == b"1" else "optionlike-word")
     diffs = vlib.correspond(run, "parseArgs", model, [vh, "parse"], cases, tag="parse",
                             nontrivial=lambda c, m, i: tuple(c) if len(c) > 1 else None, bucket=b_parse)
-    report_x1(run, "parseArgs", diffs, "echo <case_line> | build/harness/vh_c32 parse")
+    report_x1(run, "parseArgs", diffs, "echo <case_line> | build/harness/vh_c32 parse", spec_parse)
 
     # fsSetDefines
     n = 4000 if quick else 200000
@@ -480,7 +523,10 @@ def check(run, replay):
                          "one-byte mutations of those (10%), random strings over {a b space \" ' \\ - D I $ tab nl ` ; x NUL} (35%); non-trivial = contains a quote or backslash, distinct. "
                          "parseArgs: vectors of 0-8 items over -D/-U/-I/-isystem/-std= joined|separate|/X forms, flags, two-word options, files, with irregularity "
                          "0/15/40% (option-like operands, bare options, empty words); non-trivial = more than argv[0], distinct; bucket = whether the theorem's hypothesis holds. "
-                         "fsSetDefines: strings over {A B = ( ; % 1 ) x} and ';' joined macro lists. paths: 0-7 components over {a b .. . '' a. .b ..c c:}.")
+                         "fsSetDefines: strings over {A B = ( ; % 1 ) x} and ';' joined macro lists. paths: 0-7 components over {a b .. . '' a. .b ..c c:}. "
+                         "X2: databases of 30 (quick) / 40 (thorough) entries over existing probe sources; vectors of 0-7 options over -D/-U (pool X Y NDEBUG _F FN(a) A1, "
+                         "values '' =1 =2 =abc = =0), -I/-isystem (4 existing dirs + variants), -std=, flags, -o/-MF/-MT, irregularity 0/5/15%; half as arguments, half as "
+                         "command strings in 5 quoting styles; the 7 witnesses of the *_refuted theorems are the first entries; non-trivial = distinct entry.")
 
     vlib.ensure_repo_build()
     ok = run.prove()
